@@ -188,7 +188,8 @@ def run(ctx):
     # bracket pairs: decided per opening character by folding the branch
     # conditions and the matcher's arguments with sig[i] := that character
     gct = prog.func('marshal.genCompleteTypes')
-    fe = gct.nested.get('find_end')
+    from ..loader import nested_by_role
+    fe = nested_by_role(gct, 'find_end', 'only')
     sigp = ('param', gct.params()[0])
     pairs = set()
     unmatched = []
@@ -211,7 +212,7 @@ def run(ctx):
                     if not feas:
                         continue
                     fcalls = [c for c in bp.calls()
-                              if (c[1] or '').endswith('.find_end') and
+                              if fe is not None and c[1] == fe.qualname and
                               len(c[3]) == 3]
                     for c in fcalls:
                         b_, e_ = (subst_fold(a, env) for a in c[3][1:])
@@ -412,7 +413,10 @@ def matcher(ctx, fe):
         for ev in p.trace:
             if ev[0] != 'loop':
                 continue
-            init_ok = ev[5].get('depth') == C(1)
+            # the depth counter: the loop-carried slot that starts at 1
+            dslots = [k_ for k_, v_ in ev[5].items() if v_ == C(1)]
+            dname = dslots[0] if len(dslots) == 1 else 'depth'
+            init_ok = ev[5].get(dname) == C(1)
             for bp in ev[4]:
                 ch = None
                 for c, pol in bp.cond:
@@ -423,7 +427,7 @@ def matcher(ctx, fe):
                             ch = 'close'
                 if ch is None and all(not pol for c, pol in bp.cond[1:]):
                     ch = 'other'
-                d = bp.deltas.get('depth')
+                d = bp.deltas.get(dname)
                 dd = dict(d[1]).get(1, 0) if d and d[0] == 'num' else None
                 if bp.outcome == 'return':
                     # returns idx when depth - 1 == 0
